@@ -239,6 +239,22 @@ pub fn check_cfg(cfg: &Cfg, root: &Path, chs: &[String], multi: bool) -> Vec<(St
                     }
                 }
             }
+            // the summary does not depend on whether the per-change breakdown was asked for
+            match call(&js, &l, root, false) {
+                Err((sig, d)) => defects.push((sig, d, json!({"changes": l, "list": name, "breakdown": false}))),
+                Ok(p) => {
+                    if p.targets != expect {
+                        defects.push((
+                            "summary-depends-on-output-flags".into(),
+                            format!(
+                                "list {} analysed without the per-change breakdown: targets {:?}, with it (and as union of the single-change results) {:?}",
+                                name, p.targets, expect
+                            ),
+                            json!({"changes": l, "list": name, "breakdown": false}),
+                        ));
+                    }
+                }
+            }
         }
     }
     defects
